@@ -15,6 +15,26 @@ Three parts (see notes/C17.md):
     quiescence = violation with a replayable scenario + plan).
  2. randomized stress with sys.setswitchinterval(1e-6).
  3. replay / replay_known.
+
+Machine I (scenario families without shared mutable state in the code as it is;
+model coq/theories/Proofs/SchedIndep.v, loaded as the preamble of the Coq
+evaluations, so its definitions and its theorem indep_sequential are re-checked
+on every run):
+ K  methods decorated with wrappers.wrapper_decorator / wrappers.decorator looked
+    up ON THE CLASS (and on a shared instance) by each thread, retrieved with
+    inspect.signature / sigtools.signature: each access builds a fresh as_forged
+    object, the shared guard set as_forged.currently_computing never collides;
+ R  functions forwarding *args/**kwargs to themselves / to each other (also a
+    functools.wraps pair), sigtools.signature from threads that did not import
+    sigtools: the per-thread recursion stack of autoforwards_function.
+For each query: alone in the importing thread == written-down answer; alone in a
+worker thread; then every plan with one preemption (quick: all for the
+same-attribute pair, a seeded fraction for the others) + random plans with two
+preemptions for pairs, random plans for trios; per plan the answers against the
+solo answers, the guard set / __wrapped__ at quiescence, a second retrieval at
+quiescence, and model vs implementation (plan validity, answers, line traces).
+A single object shared by the threads (a module-level decorated function, a
+staticmethod of one) is NOT in these families: that is the listed C17:guard-race.
 """
 import concurrent.futures
 import functools
@@ -94,10 +114,11 @@ class Run(object):
     """One controlled execution of n thread bodies."""
     TIMEOUT = 20.0
 
-    def __init__(self, fns, tracked):
+    def __init__(self, fns, tracked, pred=None):
         self.fns = fns
         self.n = len(fns)
         self.tracked = tracked          # list of objects (identity)
+        self.pred = pred                # or: objects built during the run that belong to the scenario
         self.go = [threading.Semaphore(0) for _ in fns]
         self.back = threading.Semaphore(0)
         self.done = [False] * self.n
@@ -116,6 +137,11 @@ class Run(object):
         for t in self.tracked:
             if o is t:
                 return True
+        if self.pred is not None and o is not None:
+            try:
+                return bool(self.pred(o))
+            except Exception:  # noqa: BLE001
+                return False
         return False
 
     def _tracer(self, i):
@@ -1359,6 +1385,442 @@ def stress_E(ctx, rep, seconds):
 
 
 # ----------------------------------------------------------------------------
+# machine I: retrievals that share no mutable state in the code as it is
+#   family K - class access of methods decorated with wrappers.wrapper_decorator /
+#              wrappers.decorator (every access builds a fresh as_forged object: the
+#              entries of the shared guard set as_forged.currently_computing never collide)
+#   family R - sigtools.signature, from threads that did not import sigtools, of functions
+#              forwarding *args/**kwargs to themselves / to each other (the per-thread
+#              recursion stack of autoforwards_function)
+# Model: coq/theories/Proofs/SchedIndep.v (n independent programs under the plan scheduler).
+# ----------------------------------------------------------------------------
+from sigtools import wrappers as _wrappers  # noqa: E402
+
+I_KEYS = {'K': 'C17:class-access', 'R': 'C17:thread-recursion'}
+I_QUERY_NAMES = {
+    'K': {
+        'wI': 'inspect.signature(K.logged)  [wrapper_decorator method, looked up on the class]',
+        'wS': 'sigtools.signature(K.logged)  [wrapper_decorator method, looked up on the class]',
+        'sI': 'inspect.signature(K.tagged)  [wrappers.decorator method, looked up on the class]',
+        'sS': 'sigtools.signature(K.tagged)  [wrappers.decorator method, looked up on the class]',
+        'iI': 'inspect.signature(k.logged)  [wrapper_decorator method, looked up on the shared instance k]',
+    },
+    'R': {
+        'r': 'sigtools.signature(retry)  [retry forwards *args, **kwargs to itself, then to target]',
+        'p': 'sigtools.signature(ping)  [ping -> pong -> ping -> target]',
+        'q': 'sigtools.signature(pong)  [pong -> ping -> pong / target]',
+        'w': 'sigtools.signature(wrapped_retry)  [functools.wraps(impl) wrapper; impl calls the wrapper again]',
+        'm': 'sigtools.signature(impl)  [the implementation under that functools.wraps wrapper]',
+        'x': 'sigtools.signature(plain)  [ordinary forwarder to target, no recursion]',
+    },
+}
+# the answers of the retrievals run alone, written down
+I_SPEC = {
+    'K': {'wI': '(self, a, b=2, *, _show=True)', 'wS': '(self, a, b=2, *, _show=True)',
+          'sI': '(this, c, *, tag=None)', 'sS': '(this, c, *, tag=None)',
+          'iI': '(a, b=2, *, _show=True)'},
+    'R': {'r': '(attempts, a, b=1, *, c=None)', 'p': '(n, a, b=1, *, c=None)', 'q': '(m, a, b=1, *, c=None)',
+          'w': '(attempts, a, b=1, *, c=None)', 'm': '(attempts, a, b=1, *, c=None)', 'x': '(z, a, b=1, *, c=None)'},
+}
+# queries that touch a functools.wraps function: its delete/restore window is the listed
+# C17:wrapped-window race when two threads work on it, so such a query is scheduled next to
+# unrelated ones only (and alone)
+I_WINDOWED = {'K': set(), 'R': set(['w', 'm'])}
+
+
+class IScenario(object):
+    """fresh objects of one family"""
+    machine = 'I'
+
+    def __init__(self, family):
+        self.family = family
+        self.pred = None
+        if family == 'K':
+            self._init_K()
+        elif family == 'R':
+            self._init_R()
+        else:
+            raise KeyError(family)
+
+    # -- family K
+    def _init_K(self):
+        @_wrappers.wrapper_decorator
+        @modifiers.autokwoargs
+        def log_call(func, _show=True, *args, **kwargs):
+            return func(*args, **kwargs)
+
+        def tag_raw(func, *args, tag=None, **kwargs):
+            return func(*args, **kwargs)
+        tag_call = _wrappers.decorator(tag_raw)
+
+        def logged_raw(self, a, b=2):
+            return (a, b)
+
+        def tagged_raw(this, c):
+            return c
+
+        class K(object):
+            logged = log_call(logged_raw)
+            tagged = tag_call(tagged_raw)
+        self.K = K
+        self.k = K()
+        raws = (logged_raw, tagged_raw)
+        self.tracked = [K, self.k, logged_raw, tagged_raw, tag_raw, vars(K)['logged'], vars(K)['tagged']]
+        kinds = (_wrappers._Wrapped, _wrappers._SimpleWrapped)
+
+        def pred(o):
+            # the wrapper objects that attribute access builds while the threads run
+            if isinstance(o, kinds):
+                w = vars(o).get('__wrapped__')
+                w = getattr(w, '__func__', w)
+                return any(w is r for r in raws)
+            return False
+        self.pred = pred
+
+    # -- family R
+    def _init_R(self):
+        def target(a, b=1, *, c=None):
+            return (a, b, c)
+
+        def retry(attempts, *args, **kwargs):
+            if attempts:
+                return retry(attempts - 1, *args, **kwargs)
+            return target(*args, **kwargs)
+
+        def ping(n, *args, **kwargs):
+            if n:
+                return pong(n - 1, *args, **kwargs)
+            return target(*args, **kwargs)
+
+        def pong(m, *args, **kwargs):
+            return ping(m, *args, **kwargs)
+
+        def impl(attempts, *args, **kwargs):
+            if attempts:
+                return wrapped_retry(attempts - 1, *args, **kwargs)
+            return target(*args, **kwargs)
+
+        @functools.wraps(impl)
+        def wrapped_retry(*args, **kwargs):
+            return impl(*args, **kwargs)
+
+        def plain(z, *args, **kwargs):
+            return target(*args, **kwargs)
+        self.fns = {'r': retry, 'p': ping, 'q': pong, 'w': wrapped_retry, 'm': impl, 'x': plain}
+        self.impl = impl
+        self.tracked = [target, retry, ping, pong, impl, wrapped_retry, plain]
+
+    def call(self, q):
+        if self.family == 'R':
+            f = self.fns[q]
+            return lambda: str(sigtools.signature(f))
+        K, k = self.K, self.k
+        how = inspect.signature if q[1] == 'I' else sigtools.signature
+        if q[0] == 'w':
+            return lambda: str(how(K.logged))
+        if q[0] == 's':
+            return lambda: str(how(K.tagged))
+        return lambda: str(how(k.logged))
+
+    def final_ok(self):
+        """quiescence: nothing left in the shared guard set; the functools.wraps function has its attribute"""
+        if self.family == 'K':
+            return len(specifiers.as_forged.currently_computing) == 0
+        return vars(self.fns['w']).get('__wrapped__') is self.impl
+
+
+_I_SOLO = {}
+
+
+def i_solo(family, q):
+    """the retrieval alone, in the thread that runs the check (measured once per process)"""
+    if (family, q) not in _I_SOLO:
+        _I_SOLO[family, q] = _safe(IScenario(family).call(q))
+    return _I_SOLO[family, q]
+
+
+def in_worker_thread(fn):
+    """fn alone, but in a thread started for it (not the thread that imported sigtools)"""
+    box = []
+    t = threading.Thread(target=lambda: box.append(_safe(fn)), daemon=True)
+    t.start()
+    t.join(60)
+    return box[0] if box else ('EXC', 'no answer after 60 s')
+
+
+def _worker_I(job):
+    family, specs, plans = job
+    sys.setswitchinterval(0.005)
+    out = []
+    for p in plans:
+        sc = IScenario(family)
+        r = Run([sc.call(q) for q in specs], sc.tracked, sc.pred)
+        status = r.run_plan(list(p))
+        ok = sc.final_ok()
+        again = [_safe(sc.call(q)) for q in specs]
+        out.append({'status': status, 'results': list(r.result), 'traces': [list(t) for t in r.trace],
+                    'final_ok': ok, 'again': again})
+        if not ok:
+            specifiers.as_forged.currently_computing.clear()
+    return out
+
+
+def run_batches_I(sets, workers):
+    """sets: [(family, specs, plans)] -> one list of observations per set (one pool for all of them)"""
+    jobs, owner = [], []
+    for si, (family, specs, plans) in enumerate(sets):
+        for i in range(0, len(plans), 25):
+            jobs.append((family, specs, plans[i:i + 25]))
+            owner.append(si)
+    if workers <= 1 or len(jobs) <= 1:
+        res = [_worker_I(j) for j in jobs]
+    else:
+        import multiprocessing
+        ctxmp = multiprocessing.get_context('fork')
+        with concurrent.futures.ProcessPoolExecutor(max_workers=workers, mp_context=ctxmp) as ex:
+            res = list(ex.map(_worker_I, jobs))
+    out = [[] for _ in sets]
+    for si, part in zip(owner, res):
+        out[si].extend(part)
+    return out
+
+
+def judge_I(family, specs, plan, o):
+    out = []
+    names = I_QUERY_NAMES[family]
+    for tid, (q, res) in enumerate(zip(specs, o['results'])):
+        if res != i_solo(family, q):
+            out.append((I_KEYS[family], '%s, threads %s, plan %s: thread %d %s returned %s, alone it returns %s'
+                        % ('methods looked up on the class' if family == 'K' else 'self/mutually forwarding functions',
+                           ' '.join(specs), list(plan), tid, names[q], res, i_solo(family, q))))
+    if not o['final_ok']:
+        out.append((I_KEYS[family] + '-quiescence',
+                    'threads %s, plan %s: after the threads finished %s' % (
+                        ' '.join(specs), list(plan),
+                        'as_forged.currently_computing is not empty' if family == 'K'
+                        else 'wrapped_retry has lost its __wrapped__')))
+    for q, a in zip(specs, o['again']):
+        if a != i_solo(family, q):
+            out.append((I_KEYS[family] + '-quiescence',
+                        'threads %s, plan %s: after the threads finished %s returns %s instead of %s'
+                        % (' '.join(specs), list(plan), names[q], a, i_solo(family, q))))
+    return out
+
+
+def one_preemption_plans(nthreads, K):
+    return all_plans(nthreads, 1, K)
+
+
+_INDEP_SRC = os.path.join(os.path.dirname(os.path.abspath(coqrun.__file__)), '..', 'coq', 'theories', 'Proofs',
+                          'SchedIndep.v')
+
+
+def indep_preamble():
+    with open(_INDEP_SRC) as f:
+        return f.read() + '\nOpen Scope N_scope.\n'
+
+
+def solo_trace(family, q):
+    """line trace of the retrieval under the scheduler with the one-thread plan (a worker thread, alone)"""
+    o = _worker_I((family, [q], [[(0, None)]]))[0]
+    return o
+
+
+I_SETS = {
+    # (specs, all one-preemption plans in the quick tier?)
+    'K': [(['wI', 'wI'], True), (['sI', 'sI'], False), (['wI', 'wS'], False), (['wS', 'wS'], False),
+          (['wI', 'sI'], False), (['sI', 'sS'], False), (['iI', 'wI'], False), (['iI', 'iI'], False)],
+    'R': [(['r', 'r'], False), (['p', 'q'], False), (['p', 'p'], False), (['q', 'r'], False),
+          (['w', 'r'], False), (['m', 'x'], False), (['x', 'x'], False)],
+}
+I_TRIOS = {'K': [['wI', 'wI', 'sI'], ['wI', 'iI', 'wS']], 'R': [['r', 'p', 'q'], ['r', 'r', 'w']]}
+
+
+def explore_I(ctx, rep, workers):
+    rng = ctx.rng('plansI')
+    cov = rep.coverage.setdefault('I', {})
+    coq_jobs, family_results = [], {}
+    for family in ('K', 'R'):
+        broken = set()
+        progs = {}
+        for q in sorted(I_SPEC[family]):
+            want = I_SPEC[family][q]
+            rp = {'machine': 'I', 'family': family, 'specs': [q], 'plan': [[0, None]]}
+            if i_solo(family, q) != want:
+                rep.violation('C17:solo-answer', '%s alone returns %s, expected %s'
+                              % (I_QUERY_NAMES[family][q], i_solo(family, q), want), rp)
+                broken.add(q)
+                continue
+            # alone, but in a thread that did not import sigtools
+            rep.evaluations += 1
+            got = in_worker_thread(IScenario(family).call(q))
+            if got != want:
+                rep.violation(I_KEYS[family], '%s run ALONE in a worker thread (not the thread that imported sigtools) '
+                              'returned %s, in the importing thread it returns %s'
+                              % (I_QUERY_NAMES[family][q], got, want), rp)
+                broken.add(q)
+                continue
+            o = solo_trace(family, q)
+            rep.evaluations += 1
+            v = judge_I(family, [q], [(0, None)], o)
+            for key, what in v:
+                rep.violation(key, what, rp)
+            if v or o['status'] != 'ok':
+                broken.add(q)
+                continue
+            progs[q] = o['traces'][0]
+        sets = []
+        for specs, full in I_SETS[family]:
+            if any(q in broken for q in specs):
+                continue
+            K = max(len(progs[q]) for q in specs) + 1
+            one = one_preemption_plans(2, K)
+            if not (full or not ctx.quick):
+                one = one[:2] + [p for p in one[2:] if rng.random() < 0.15]
+            ps = set(one)
+            n2 = (30 if ctx.quick else 800) + len(ps)
+            while len(ps) < n2:
+                ps.add(random_plan(rng, 2, 2, K))
+            sets.append((specs, sorted(ps, key=str), K, full or not ctx.quick))
+        for trio in I_TRIOS[family]:
+            if any(q in broken for q in trio):
+                continue
+            K = max(len(progs[q]) for q in trio) + 1
+            ps = set()
+            while len(ps) < (60 if ctx.quick else 800):
+                ps.add(random_plan(rng, 3, 2, K))
+            sets.append((trio, sorted(ps, key=str), K, False))
+        results = []
+        all_obs = run_batches_I([(family, specs, plans) for specs, plans, K, full in sets], workers)
+        # the model's side: one Coq file per family (traces interned once), one term per set
+        intern = {}
+
+        def tr_name(tr):
+            key = tuple(tr)
+            if key not in intern:
+                intern[key] = 'tr%d' % len(intern)
+            return intern[key]
+        sdefs, terms = [], []
+        for (specs, plans, K, full), obs in zip(sets, all_obs):
+            k = len(results)
+            results.append((specs, plans, obs, K, full))
+            body = ';\n'.join(
+                '(%s, %s)' % (coq_plan(p), 'None' if o['status'] != 'ok' else '(Some [%s])' % '; '.join(
+                    '(%d, %s)' % (1 if r == i_solo(family, q) else 99, tr_name(t))
+                    for q, r, t in zip(specs, o['results'], o['traces'])))
+                for p, o in zip(plans, obs))
+            sdefs.append('Definition progs%d : list (list N) := [%s].\n' % (k, '; '.join(tr_name(progs[q]) for q in specs))
+                         + 'Definition cases%d : list (plan * option (list (N * list N))) := [\n%s].\n' % (k, body))
+            terms.append('disagreeing (fun x => icase_agrees progs%d (fst x) (snd x)) cases%d 0' % (k, k))
+        defs = ''.join('Definition %s : list N := [%s].\n' % (nm, '; '.join(str(c) for c in key))
+                       for key, nm in intern.items())
+        disagree = dict((i, set()) for i in range(len(results)))
+        coq_jobs.append((family, indep_preamble() + defs + ''.join(sdefs), terms, disagree))
+        family_results[family] = (results, disagree, broken, progs)
+    # both families' Coq files in parallel
+    def coq_one(job):
+        family, pre, terms, disagree = job
+        if not terms:
+            return None
+        try:
+            for ri, a in enumerate(coqrun.coq_eval(pre, terms, timeout=600)):
+                disagree[ri].update(coqrun.parse_nat_list(a))
+        except coqrun.CoqError as e:
+            return str(e)[-600:]
+        return None
+    with concurrent.futures.ThreadPoolExecutor(max_workers=2) as ex:
+        for err in ex.map(coq_one, coq_jobs):
+            if err:
+                rep.corr_break('C17 machine I: the model could not be evaluated', 'Proofs/SchedIndep.v', err, '')
+    for family in ('K', 'R'):
+        results, disagree, broken, progs = family_results[family]
+        for ri, (specs, plans, obs, K, full) in enumerate(results):
+            stats = {'plans': len(plans), 'valid': 0, 'nonsequential': 0, 'preemption_positions': K,
+                     'all_one_preemption_plans': full, 'model_disagreements': len(disagree[ri])}
+            for i, (p, o) in enumerate(zip(plans, obs)):
+                rep.evaluations += 1
+                if o['status'] == 'ok':
+                    stats['valid'] += 1
+                    rep.distinct.add(('I', family, tuple(specs), tuple(o['results']),
+                                      tuple(len(t) for t in o['traces'])))
+                v = judge_I(family, specs, p, o)
+                if v:
+                    stats['nonsequential'] += 1
+                rp = {'machine': 'I', 'family': family, 'specs': specs, 'plan': [list(x) for x in p]}
+                for key, what in v:
+                    rep.violation(key, what, rp)
+                if i in disagree[ri]:
+                    rep.corr_break('C17 machine I (independent threads): plan outcome (validity, answers, line traces)', rp,
+                                   'every thread emits the trace of its retrieval alone: see Proofs/SchedIndep.v irun_plan',
+                                   {'status': o['status'], 'results': o['results'],
+                                    'trace lengths': [len(t) for t in o['traces']],
+                                    'solo trace lengths': [len(progs[q]) for q in specs]})
+            cov['%s/%s' % (family, '-'.join(specs))] = stats
+        cov['%s/alone-in-a-worker-thread' % family] = {'queries': len(I_SPEC[family]), 'wrong': len(broken)}
+
+
+def stress_I(ctx, rep, seconds):
+    """free-running threads (none of them the importing thread) on fresh objects of both families"""
+    rng = ctx.rng('stressI')
+    old = sys.getswitchinterval()
+    stats = {}
+    try:
+        sys.setswitchinterval(1e-6)
+        for family in ('K', 'R'):
+            rounds = wrong = 0
+            t_end = time.time() + seconds / 2.0
+            pool = sorted(q for q in I_SPEC[family] if q not in I_WINDOWED[family])
+            while time.time() < t_end:
+                rounds += 1
+                sc = IScenario(family)
+                if rng.random() < 0.5:
+                    specs = [rng.choice(pool)] * 3            # all three on the same attribute / function
+                else:
+                    specs = [rng.choice(pool) for _ in range(3)]
+                if family == 'R' and rng.random() < 0.3:
+                    specs[0] = rng.choice(sorted(I_WINDOWED[family]))   # one thread on the functools.wraps pair
+                barrier = threading.Barrier(3)
+                res = [[] for _ in specs]
+                iters = rng.randint(3, 8)
+
+                def body(i):
+                    fn = sc.call(specs[i])
+                    try:
+                        barrier.wait(10)
+                    except threading.BrokenBarrierError:
+                        return
+                    for _ in range(iters):
+                        res[i].append(_safe(fn))
+                ths = [threading.Thread(target=body, args=(i,), daemon=True) for i in range(3)]
+                for t in ths:
+                    t.start()
+                for t in ths:
+                    t.join(60)
+                seen = set()
+                for q, rs in zip(specs, res):
+                    for r in rs:
+                        if r != i_solo(family, q):
+                            wrong += 1
+                            if (q, r) not in seen:
+                                seen.add((q, r))
+                                rep.violation(I_KEYS[family], 'stress, threads %s: %s returned %s, alone %s'
+                                              % (' '.join(specs), I_QUERY_NAMES[family][q], r, i_solo(family, q)),
+                                              {'machine': 'stressI', 'family': family})
+                if not sc.final_ok():
+                    wrong += 1
+                    rep.violation(I_KEYS[family] + '-quiescence', 'stress, threads %s: at quiescence %s' % (
+                        ' '.join(specs), 'as_forged.currently_computing is not empty' if family == 'K'
+                        else 'wrapped_retry has lost its __wrapped__'), {'machine': 'stressI', 'family': family})
+                    specifiers.as_forged.currently_computing.clear()
+                if wrong > 20:
+                    break
+            stats[family] = {'rounds': rounds, 'wrong_answers': wrong}
+    finally:
+        sys.setswitchinterval(old)
+    rep.coverage['stressI'] = stats
+
+
+# ----------------------------------------------------------------------------
 # randomized stress (true preemption, minimal switch interval)
 # ----------------------------------------------------------------------------
 def stress(ctx, rep, seconds):
@@ -1452,9 +1914,11 @@ def run(ctx, rep):
     explore_C(ctx, rep, workers)
     explore_F(ctx, rep, workers)
     explore_E(ctx, rep, workers)
+    explore_I(ctx, rep, workers)
     stress(ctx, rep, 4.0 if ctx.quick else 30.0)
     stress_F(ctx, rep, 2.0 if ctx.quick else 15.0)
     stress_E(ctx, rep, 2.0 if ctx.quick else 15.0)
+    stress_I(ctx, rep, 3.0 if ctx.quick else 20.0)
     rep.traces = rep.evaluations
     rep.assumptions.extend([
         'threads are preempted only at line events of the modelled sigtools functions '
@@ -1464,6 +1928,9 @@ def run(ctx, rep):
         'preemption inside C code or inside inspect/ast, and the real granularity of the GIL, are not exhibited by the '
         'model (only by the randomized stress part)',
         'inspect.signature reads __wrapped__/__signature__ as one atomic step (validated: no modelled line lies inside it)',
+        'machine I: a thread\'s program is the line trace of its retrieval run alone under the scheduler (measured '
+        'before the concurrent runs, like machine W\'s cfg/init); Proofs/SchedIndep.v is not listed in _CoqProject, '
+        'its text is compiled as the preamble of the check\'s Coq evaluations',
     ])
 
 
@@ -1502,6 +1969,28 @@ def replay(ctx, data):
         o = _worker_E((specs, [plan]))[0]
         v = judge_E(specs, plan, o)
         return '; '.join(w for _, w in v) if v else None
+    if d.get('machine') == 'I':
+        family, specs = d['family'], list(d['specs'])
+        plan = [(t, n) for t, n in d['plan']]
+        if len(specs) == 1:
+            got = in_worker_thread(IScenario(family).call(specs[0]))
+            if got != i_solo(family, specs[0]) or got != I_SPEC[family][specs[0]]:
+                return ('%s run alone in a worker thread returned %s; in the importing thread %s, written down %s'
+                        % (I_QUERY_NAMES[family][specs[0]], got, i_solo(family, specs[0]), I_SPEC[family][specs[0]]))
+        o = _worker_I((family, specs, [plan]))[0]
+        v = judge_I(family, specs, plan, o)
+        return '; '.join(w for _, w in v) if v else None
+    if d.get('machine') == 'stressI':
+        class RI(object):
+            def __init__(self):
+                self.v = []
+                self.coverage = {}
+
+            def violation(self, key, what, rp):
+                self.v.append(what)
+        rI = RI()
+        stress_I(ctx, rI, 10.0)
+        return '; '.join(rI.v[:3]) if rI.v else None
     if d.get('machine') == 'stressE':
         class RE(object):
             def __init__(self):
